@@ -11,6 +11,8 @@ CommonMark 0.31.2 specification (vendor/commonmark-spec/spec.txt), not from src/
 * inlines: `<em>`, `<strong>`, `<del>` (GFM strikethrough), `<code>`, `<a href title>`, `<img src alt title />` with the
   plain-text content of the description as `alt` (section 6.4), `<br />` + newline, soft break
   as newline (sections 6.7, 6.8);
+* HTML blocks: comrak's default safe mode is kept, in which raw HTML is replaced by the comment
+  `<!-- raw HTML omitted -->` (the specification's pass-through needs `render.unsafe_`);
 * text: `<`, `>`, `&`, `"` as entities; URLs percent-encoded outside the URL-safe set with `&`
   as `&amp;` (the convention of the spec's examples, e.g. 6.3 "foo%20b%C3%A4").
 
@@ -64,10 +66,14 @@ def Inl.plain : Inl → Bytes
   | .autolink s r => autolinkUrl s r
   | .hard _ => [0x20]
   | .soft => [0x20]
+  | .fnref .. => []
 def Inls.plain : Inls → Bytes
   | .nil => []
   | .cons i r => i.plain ++ r.plain
 end
+
+/-- `-N` for the second and later references to a note. -/
+def fnSuffix (n : Nat) : Bytes := if n > 1 then H.dash ++ ofNatDec n else []
 
 def refTitle (title : Bytes) : Bytes := if title.isEmpty then [] else H.title_attr ++ refEsc title
 
@@ -83,6 +89,8 @@ def Inl.html : Inl → Bytes
   | .autolink s r => H.a_href ++ refUrl (autolinkUrl s r) ++ H.q_gt ++ refEsc (autolinkUrl s r) ++ H.a_close
   | .hard _ => H.br
   | .soft => H.nl
+  | .fnref name rn ix =>
+    H.fnref_open ++ name ++ H.fnref_id ++ name ++ fnSuffix rn ++ H.fnref_mid ++ ofNatDec ix ++ H.fnref_close
 def Inls.html : Inls → Bytes
   | .nil => []
   | .cons i r => i.html ++ r.html
@@ -102,6 +110,40 @@ def refListOpen (m : Marker) : Bytes :=
 
 def refListClose (m : Marker) : Bytes := if m.ordered then H.ol_close else H.ul_close
 
+/-- `align` attribute of a cell (GFM spec, tables: "the cells of that column are aligned"). -/
+def refAlign : Align → Bytes
+  | .none => []
+  | .left => H.align_attr ++ H.left ++ H.q
+  | .right => H.align_attr ++ H.right ++ H.q
+  | .center => H.align_attr ++ H.center ++ H.q
+
+/-- The cells of a row, one per line: `<th align="..">content</th>`; `i` is the column of the
+    first cell. -/
+def refCells (open_ close : Bytes) (al : List Align) : Nat → List Inls → Bytes
+  | _, [] => []
+  | i, c :: r => open_ ++ refAlign (al.getD i .none) ++ H.gt ++ c.html ++ close ++ refCells open_ close al (i + 1) r
+
+def refRow (open_ close : Bytes) (al : List Align) (cells : List Inls) : Bytes :=
+  H.tr_open ++ refCells open_ close al 0 cells ++ H.tr_close
+
+def refRows (al : List Align) : List (List Inls) → Bytes
+  | [] => []
+  | r :: rs => refRow H.td_open H.td_close al r ++ refRows al rs
+
+/-- GFM spec, tables (extension): `<table>`, the header row in `<thead>`, the body rows in
+    `<tbody>`, which is left out when there are none. -/
+def refTable (al : List Align) (h : List Inls) (rows : List (List Inls)) : Bytes :=
+  H.table_open ++ H.thead_open ++ refRow H.th_open H.th_close al h ++ H.thead_close ++
+    (if rows.isEmpty then [] else H.tbody_open ++ refRows al rows ++ H.tbody_close) ++ H.table_close
+
+/-- GFM spec, task list items (extension): the marker is replaced by a disabled checkbox followed
+    by a space (attribute order and `/>` as comrak writes them; the spec's test normaliser treats
+    both as equal to its own `<input disabled="" type="checkbox">`). -/
+def Task.html : Task → Bytes
+  | .no => []
+  | .unchecked => H.checkbox
+  | .checked _ => H.checkbox_checked
+
 mutual
 /-- One block. `tight`: the block is a direct child of an item of a tight list;
     `bol`: the output so far ends at the beginning of a line. -/
@@ -114,15 +156,41 @@ def Blk.html (tight bol : Bool) : Blk → Bytes
   | .icode ls => crB bol ++ refCodeOpen [] ++ refEsc (joinLines ls) ++ H.code_pre_close
   | .quote bs => crB bol ++ H.bq_open ++ bs.html false true ++ H.bq_close
   | .list m items => crB bol ++ refListOpen m ++ items.html m.tight ++ refListClose m
+  | .table al h rows => crB bol ++ refTable al h rows
+  | .htmlb _ => crB bol ++ H.omitted
 def Blks.html (tight bol : Bool) : Blks → Bytes
   | .nil => []
   | .cons b r => let s := b.html tight bol; s ++ r.html tight (atBol bol s)
 def Items.html (tight : Bool) : Items → Bytes
   | .nil => []
-  | .cons bs r => H.li_open ++ bs.html tight false ++ H.li_close ++ r.html tight
+  | .cons t bs r => H.li_open ++ t.html ++ bs.html tight false ++ H.li_close ++ r.html tight
 end
 
+/-- The back-links of note number `ix`: one per reference, the second and later ones numbered. -/
+def refBackrefs (name : Bytes) (ix : Nat) : Nat → Nat → Bytes
+  | 0, _ => []
+  | k + 1, n =>
+    (if n > 1 then H.sp else []) ++
+    H.backref_open ++ name ++ fnSuffix n ++ H.backref_cls ++ ofNatDec ix ++ fnSuffix n ++
+    H.backref_aria ++ ofNatDec ix ++ fnSuffix n ++ H.backref_arrow ++
+    (if n > 1 then H.backref_sup_open ++ ofNatDec n ++ H.backref_sup_close else []) ++ H.a_close ++
+    refBackrefs name ix k (n + 1)
+
+/-- One footnote: `<li id="fn-NAME">`, its paragraph, a space and the back-links at its end. -/
+def refNote (n : Note) (ix : Nat) : Bytes :=
+  H.fn_li_open ++ n.name ++ H.fn_li_mid ++ n.body.html ++ H.sp ++ refBackrefs n.name ix n.total 1 ++ H.fn_p_close
+
+def refNoteItems : Nat → List Note → Bytes
+  | _, [] => []
+  | k, n :: r => refNote n k ++ refNoteItems (k + 1) r
+
+/-- The footnote section (the format GitHub and the footnotes extension of cmark-gfm / comrak
+    write; there is no specification text for it): an ordered list of the referenced notes in the
+    order of their first reference. -/
+def refNotes (notes : List Note) : Bytes :=
+  if notes.isEmpty then [] else H.fn_section_open ++ refNoteItems 1 notes ++ H.fn_section_close
+
 /-- The HTML the specification prescribes for the structure `d` spells. -/
-def Doc.refHtml (d : Doc) : Bytes := d.blocks.html false true
+def Doc.refHtml (d : Doc) : Bytes := d.blocks.html false true ++ refNotes d.notes
 
 end Comrak.Canon
